@@ -361,6 +361,30 @@ def focused_docs() -> list[tuple[str, dict]]:
             },
         )
     )
+    docs.append(
+        (
+            "discriminator",
+            {
+                "title": "Model",
+                "type": "object",
+                "properties": {
+                    "pet": {
+                        "oneOf": [{"$ref": "#/definitions/Cat"}, {"$ref": "#/definitions/Dog"}],
+                        "discriminator": {"propertyName": "kind", "mapping": {"cat": "#/definitions/Cat", "dog": "#/definitions/Dog"}},
+                    },
+                    "pets": {
+                        "type": "array",
+                        "items": {"oneOf": [{"$ref": "#/definitions/Cat"}, {"$ref": "#/definitions/Dog"}], "discriminator": {"propertyName": "kind", "mapping": {"cat": "#/definitions/Cat", "dog": "#/definitions/Dog"}}},
+                    },
+                },
+                "required": ["pet"],
+                "definitions": {
+                    "Cat": {"type": "object", "properties": {"kind": {"type": "string", "enum": ["cat"]}, "lives": {"type": "integer", "minimum": 0}}, "required": ["kind", "lives"]},
+                    "Dog": {"type": "object", "properties": {"kind": {"type": "string", "enum": ["dog"]}, "bark": {"type": "boolean"}}, "required": ["kind", "bark"]},
+                },
+            },
+        )
+    )
     docs.append(("nullable", {"title": "Model", "type": "object", "properties": {"a": {"type": ["string", "null"], "maxLength": 3}, "b": {"type": ["integer", "null"], "minimum": 0}, "c": {"anyOf": [{"type": "string"}, {"type": "null"}]}}, "required": ["a"]}))
     docs.append(("alias", {"title": "Model", "type": "object", "properties": {"kebab-name": {"type": "integer"}, "class": {"type": "string"}, "with space": {"type": "boolean"}, "1st": {"type": "number"}}, "required": ["kebab-name", "class"]}))
     docs.append(("dict", {"title": "Model", "type": "object", "properties": {"m": {"type": "object", "additionalProperties": {"type": "integer", "minimum": 0}}, "n": {"type": "object", "additionalProperties": {"$ref": "#/definitions/P"}}}, "definitions": {"P": {"type": "object", "properties": {"x": {"type": "number"}}, "required": ["x"]}}}))
